@@ -319,9 +319,12 @@ func (val Value) Equals(other Value) Value {
 
 		// Two sets are equal if all of their values are known and all values
 		// in one are also in the other.
+		// (An element that is known but has unknown values nested inside it
+		// cannot be matched against the other set yet either.)
+		ety := ty.typeImpl.(typeSet).ElementTypeT
 		for it := s1.Iterator(); it.Next(); {
 			rv := it.Value()
-			if _, unknown := rv.(*unknownType); unknown { // "*unknownType" is the internal representation of unknown-ness
+			if !(Value{ty: ety, v: rv}).IsWhollyKnown() {
 				return unknownResult()
 			}
 			if !s2.Has(rv) {
@@ -330,7 +333,7 @@ func (val Value) Equals(other Value) Value {
 		}
 		for it := s2.Iterator(); it.Next(); {
 			rv := it.Value()
-			if _, unknown := rv.(*unknownType); unknown { // "*unknownType" is the internal representation of unknown-ness
+			if !(Value{ty: ety, v: rv}).IsWhollyKnown() {
 				return unknownResult()
 			}
 			if !s1.Has(rv) {
